@@ -273,6 +273,62 @@ def run_wire(n, script, entries, rng, node_mod, pauses=None):
         node_mod.requests, node_mod.sleep = saved
 
 
+def long_run(n, total, node_mod, jump=None):
+    """One client, `total` requests through the position stub with a sprinkling of failures; oracle only
+    (request i must reach node (start + i) mod n).  jump = (attribute values to plant on the instance before the
+    run, start position): the rotation must simply continue.  Returns None or a dict describing the first bad request."""
+    saved = node_mod.RpcNode.request
+    log = []
+    state = {'exc': None}
+
+    def stub(node_self, method, path, **kw):
+        log.append(node_self)
+        if state['exc'] is not None:
+            raise state['exc']
+        return log
+
+    rpc_err = node_mod.RpcError('x')
+    conn_err = requests.exceptions.ConnectionError('x')
+    node_mod.RpcNode.request = stub
+    try:
+        uris = [f'http://node{k}.test:8732' for k in range(n)]
+        mn = node_mod.RpcMultiNode(list(uris))
+        nodes = getattr(mn, 'nodes', None)
+        pos = {id(nd): k for k, nd in enumerate(nodes)} if isinstance(nodes, (list, tuple)) else {}
+        skip = 0
+        start = 0
+        if jump:
+            for k, v in jump[0].items():
+                setattr(mn, k, v)
+            start, skip = None, 2       # planted state: let the client re-synchronise for two requests, then demand plain rotation
+        prev = None
+        for i in range(total):
+            state['exc'] = rpc_err if i % 11 == 3 else conn_err if i % 97 == 5 else None
+            del log[:]
+            try:
+                mn.request('GET', '/chains/main/blocks/head')
+            except Exception:  # noqa: BLE001  (the scripted failure, or the implementation's own)
+                pass
+            got = [pos.get(id(x), BAD) for x in log]
+            if start is not None:
+                want = (start + i) % n
+            else:
+                want = (prev + 1) % n if (prev is not None and i >= skip) else None
+            if len(got) != 1 or (want is not None and got[0] != want):
+                return {'nodes': n, 'request_number': i, 'went_to': got, 'expected_node': want,
+                        'failures': 'request k raises RpcError when k % 11 == 3, ConnectionError when k % 97 == 5',
+                        'planted_state': jump[0] if jump else None}
+            prev = got[0]
+        return None
+    finally:
+        node_mod.RpcNode.request = saved
+
+
+def int_attrs(node_mod):
+    mn = node_mod.RpcMultiNode(['http://a.test', 'http://b.test', 'http://c.test'])
+    return sorted(k for k, v in vars(mn).items() if isinstance(v, int) and not isinstance(v, bool))
+
+
 def spec_oracle(n, script, obs):
     """(B) the property itself on the implementation's observation: request i reaches node i mod n
     (exactly one node), whatever happened before."""
@@ -359,7 +415,8 @@ def run(ctx: lib.Ctx) -> None:
                 'for 1..4 nodes with distinct addresses, per-node RpcNode.request stubbed (node identified by object position); the same over 8 node lists '
                 'that repeat an address (e.g. a,a,b / a,b,a,c) with scripts up to length 8 (thorough 10); the client driven through every public entry point '
                 '(request/get/post/put/delete, mixed, uniform, and one odd call among requests) with pytezos.rpc.node.requests stubbed and the target of EVERY HTTP request read off the URL, incl. nodes answering transient 5xx through all retries, and with the clocks stubbed and pauses of 0 s .. 1 day between requests; plus random scripts of length 11..60 for 1..7 nodes and pairs of '
-                'clients used alternately. non-trivial = at least one failing outcome before the last request and n >= 2; '
+                'clients used alternately; one long run of 70 000 requests per n in {3,5,6,7} (oracle only; counters that wrap) and short runs from planted '
+                'integer state (every valid _next_i; any other int attribute of the instance set near 2^8 .. 2^64). non-trivial = at least one failing outcome before the last request and n >= 2; '
                 'distinct = distinct (n, script)')
     cases, meta, cidx = [], [], []
 
@@ -449,6 +506,49 @@ def run(ctx: lib.Ctx) -> None:
     bad = ctx.coq_mismatches(f'multinode{os.getpid()}', IMPORTS, 'run_case', 'obs_eqb', 'nat * list outcome', 'list event * nat',
                              cases, shard=ctx.n(1000, 2000))
 
+    # long runs (oracle only, no literal): counters that wrap (2^16 ...) only show after many requests
+    long_fail = []
+    for n in (3, 5, 6, 7):
+        total = 70_000
+        r = long_run(n, total, node_mod)
+        ctx.case(('long-run', n, total), nontrivial=True, kind='long-run', sample={'nodes': n, 'requests': total, 'first_bad_request': r})
+        if r:
+            long_fail.append(r)
+    attrs = int_attrs(node_mod)
+    ctx.extra['int_state_attributes'] = attrs
+    for n in (3, 5, 7):
+        for k0 in range(n):                         # every valid _next_i as a start state
+            r = long_run(n, 3 * n + 2, node_mod, jump=({'_next_i': k0}, None)) if '_next_i' in attrs else None
+            ctx.case(('jump', n, '_next_i', k0), nontrivial=True, kind='planted-state')
+            if r:
+                long_fail.append(r)
+        for a in attrs:
+            if a == '_next_i':
+                continue
+            for base in (2 ** 8, 2 ** 15, 2 ** 16, 2 ** 31, 2 ** 32, 2 ** 63, 2 ** 64):
+                for d in (-3, -2, -1, 0):
+                    v = base + d
+                    planted = {a: v}
+                    if '_next_i' in attrs:
+                        planted['_next_i'] = v % n
+                    r = long_run(n, 3 * n + 6, node_mod, jump=(planted, None))
+                    ctx.case(('jump', n, a, v), nontrivial=True, kind='planted-state')
+                    if r:
+                        long_fail.append(r)
+    long_fail.sort(key=lambda r: (r['planted_state'] is not None, r['request_number'], r['nodes']))
+    for r in long_fail[:2]:
+        if r['planted_state'] is None:
+            what = (f"rotation violated: request {r['request_number']} of a long-running {r['nodes']}-node client went to node(s) {r['went_to']}, "
+                    f"expected node {r['expected_node']} = {r['request_number']} mod {r['nodes']}")
+            repro = (f"c = RpcMultiNode([{r['nodes']} uris]); stub RpcNode.request to record the node; send {r['request_number'] + 1} requests "
+                     f"({r['failures']}); compare the node of the last one with {r['request_number']} % {r['nodes']} (harness/c28.py long_run)")
+        else:
+            what = (f"rotation violated: a {r['nodes']}-node client whose integer state is {r['planted_state']} (as after very many requests) sends request "
+                    f"{r['request_number']} after that to node(s) {r['went_to']} instead of continuing the rotation with node {r['expected_node']}")
+            repro = (f"c = RpcMultiNode([{r['nodes']} uris]); for k, v in planted_state.items(): setattr(c, k, v); stub RpcNode.request; send "
+                     f"{r['request_number'] + 1} requests; consecutive requests must go to consecutive nodes (harness/c28.py long_run)")
+        ctx.violation(what, {**r, 'repro': repro})
+
     wbad = ctx.coq_mismatches(f'multinodewire{os.getpid()}', IMPORTS, 'run_timed_case', 'wire_obs_eqb',
                               'nat * list (BinNums.Z * (call * outcome))', 'list wire_event * nat', wcases, shard=ctx.n(1000, 2000))
     bad = sorted([cidx[i] for i in bad] + [wmeta[i] for i in wbad])
@@ -471,7 +571,7 @@ def run(ctx: lib.Ctx) -> None:
                        'repro': f"c = RpcMultiNode({obs[4]!r}); call c.<entry_points[i]>(path) for i = 0..{at} with the HTTP layer "
                                 f"(pytezos.rpc.node.requests.request, or RpcNode.request when every entry point is 'request') stubbed to produce the "
                                 f"outcomes {short!r} in turn (harness/c28.py run_wire / run_impl); compare the address requested by call i with uris[i % {n}]"})
-    if not fails and bad:
+    if not fails and not long_fail and bad:
         n, script, obs = meta[bad[0]][:3]
         ctx.violation('implementation no longer corresponds to the model the theorems are about',
                       {'correspondence': 'C28/RpcMultiNode.request vs Client.MultiNode.run', 'nodes': n, 'uris': obs[4], 'script': list(script),
